@@ -22,7 +22,8 @@ func init() {
 		ShrinkColumns: true,
 		Gen:           genC10,
 		Check:         checkC10,
-		Required:      []string{"out_of_order_arrival", "sender_blocked_on_full_buffer", "run_at_first_column", "run_at_last_column", "run_length_one", "runs_separated_by_one_base", "all_ambiguous_row"},
+		Required:      []string{"run_at_first_column", "run_at_last_column", "run_length_one", "runs_separated_by_one_base", "all_ambiguous_row"},
+		Expected:      []string{"out_of_order_arrival", "sender_blocked_on_full_buffer"},
 	})
 }
 
